@@ -181,3 +181,28 @@ func H_C13_near() {
 	diffSearch("max_by(@, &x).x", objs, false)
 	diffSearch("min_by(@, &x).x", objs, false)
 }
+
+// H_C13_nested: ordering functions used inside the key expression of another
+// ordering function (each call has its own keys: nothing of the outer call may
+// be disturbed by the inner one). Three groups of two members with symbolic
+// values; the outer key is the smallest / largest member value of the group.
+var c13NestedForms = []string{
+	"sort_by(@, &sort_by(m, &v)[0].v)[*].id",
+	"sort_by(@, &max_by(m, &v).v)[*].id",
+	"sort_by(@, &sort(m[*].v)[0])[*].id",
+	"max_by(@, &sort_by(m, &v)[0].v).m[*].v | min(@)",
+	"sort_by(@, &min(m[*].v))[*].id",
+	"sort_by(@, &sort_by(m, &v)[-1].v)[*].[id, sort_by(m, &v)[0].v]",
+}
+
+func H_C13_nested() {
+	form := c13NestedForms[vrtChoose("form", len(c13NestedForms))]
+	vrtNote("template:" + form)
+	groups := make([]any, 3)
+	for i := range groups {
+		a := int64(vrtIntRange("a", 0, 4))
+		b := int64(vrtIntRange("b", 0, 4))
+		groups[i] = map[string]any{"id": int64(i), "m": []any{map[string]any{"v": a}, map[string]any{"v": b}}}
+	}
+	diffSearch(form, groups, false)
+}
